@@ -4,6 +4,7 @@ mode 'enumerate': for a sampled workload x execution kind, every (function, invo
 reference call log is made the failing one in turn.  mode 'plan': explicit fault plan (replay)."""
 from __future__ import annotations
 
+import asyncio
 import copy
 import os
 import warnings
@@ -55,6 +56,8 @@ def gen_case(tape, tier):
         output = tape.pick(all_outputs(w), "output")
     else:
         w = gen_workload(tape, max_funcs=4)
+        for fd in w["functions"]:
+            fd.pop("scribbles", None)  # (a function that changes its arguments before failing changes what a snapshot can show)
         output = None
     cfg = {
         "exec": kind,
@@ -223,6 +226,8 @@ def run_plan(w, cfg, faults, ref, tape, gens, then=None):
                         err, outcome = e, type(e).__name__
                     except SimCrash:
                         raise
+                    except asyncio.CancelledError as e:  # a BaseException: what surfaced instead of the user's exception
+                        err, outcome = e, "raised"
                     except Exception as e:  # noqa: BLE001
                         err, outcome = e, "raised"
                     # let an abandoned pool finish what it can, as a real pool would
@@ -308,7 +313,7 @@ def run_plan(w, cfg, faults, ref, tape, gens, then=None):
                     except (Deadlock, StepCap) as e:
                         V("liveness", "second-failure-" + type(e).__name__, str(e))
                         return
-                    except Exception as e:  # noqa: BLE001
+                    except (Exception, asyncio.CancelledError) as e:  # noqa: BLE001
                         err2 = e
                     try:
                         k.drain()
